@@ -110,18 +110,18 @@ spec_sha256_compress(uint32_t H[8], const uint8_t M[64])
  */
 #define SPEC_MD_PADDED_LEN(bits) (((((uint64_t)(bits) >> 3) + 9 + 63) / 64) * 64)
 #define SPEC_SHA_PAD_BYTE(bits, q) \
-	((uint8_t)(((uint64_t)(q) == ((uint64_t)(bits) >> 3)) ? 0x80 : \
+	((((uint64_t)(q) == ((uint64_t)(bits) >> 3)) ? 0x80 : \
 	    ((uint64_t)(q) < SPEC_MD_PADDED_LEN(bits) - 8) ? 0x00 : \
-	    (((uint64_t)(bits)) >> (8 * ((SPEC_MD_PADDED_LEN(bits) - 1 - (uint64_t)(q)) & 7)))))
+	    (((uint64_t)(bits)) >> (8 * ((SPEC_MD_PADDED_LEN(bits) - 1 - (uint64_t)(q)) & 7)))) & 0xff)
 /* MD5 (RFC 1321 3.2): same, but the 64-bit length is little-endian */
 #define SPEC_MD5_PAD_BYTE(bits, q) \
-	((uint8_t)(((uint64_t)(q) == ((uint64_t)(bits) >> 3)) ? 0x80 : \
+	((((uint64_t)(q) == ((uint64_t)(bits) >> 3)) ? 0x80 : \
 	    ((uint64_t)(q) < SPEC_MD_PADDED_LEN(bits) - 8) ? 0x00 : \
-	    (((uint64_t)(bits)) >> (8 * (((uint64_t)(q) - (SPEC_MD_PADDED_LEN(bits) - 8)) & 7)))))
+	    (((uint64_t)(bits)) >> (8 * (((uint64_t)(q) - (SPEC_MD_PADDED_LEN(bits) - 8)) & 7)))) & 0xff)
 
 /* big-endian byte i (0..3) of a 32-bit word; little-endian likewise */
-#define SPEC_BE32_BYTE(w, i) ((uint8_t)((uint32_t)(w) >> (8 * (3 - ((i) & 3)))))
-#define SPEC_LE32_BYTE(w, i) ((uint8_t)((uint32_t)(w) >> (8 * ((i) & 3))))
+#define SPEC_BE32_BYTE(w, i) (((uint32_t)(w) >> (8 * (3 - ((i) & 3)))) & 0xff)
+#define SPEC_LE32_BYTE(w, i) (((uint32_t)(w) >> (8 * ((i) & 3))) & 0xff)
 
 /* 6.2: the whole hash of a byte string (used by the native self-test and by bounded end-to-end harnesses) */
 static inline void
@@ -137,12 +137,12 @@ spec_sha256(const uint8_t * msg, size_t len, uint8_t digest[32])
 	for (i = 0; i < 8; i++)
 		H[i] = spec_sha256_IV[i];
 	for (q = 0; q < plen; q++) {
-		M[q % 64] = (q < len) ? msg[q] : SPEC_SHA_PAD_BYTE(bits, q);
+		M[q % 64] = (uint8_t)((q < len) ? msg[q] : SPEC_SHA_PAD_BYTE(bits, q));
 		if (q % 64 == 63)
 			spec_sha256_compress(H, M);
 	}
 	for (i = 0; i < 32; i++)
-		digest[i] = SPEC_BE32_BYTE(H[i / 4], i % 4);
+		digest[i] = (uint8_t)SPEC_BE32_BYTE(H[i / 4], i % 4);
 }
 
 #endif /* !SHA256_SPEC_H_ */
